@@ -1239,7 +1239,9 @@ func TestVerifC41(t *testing.T) {
 					for _, c := range rclis {
 						s1, s2 := base, base
 						s1.grade, s2.grade, s1.chacha, s2.chacha, s1.rev, s2.rev = g1, g2, cha[0], cha[1], rev, rev
-						s1.poodle, s2.poodle = !rev, !rev
+						// SSL3.0 sessions with a non-RC4 suite can be created on connection 1 and meet
+						// an RC4-only policy (grade B / Ssl3PoodleProofed) on connection 2
+						s1.poodle, s2.poodle = false, !rev
 						runR("R1", s1, s2, c)
 					}
 				}
